@@ -20,6 +20,10 @@ func c09Data(id string) map[string]any {
 	d := goodData()
 	d["min"] = int64(math.MinInt64)
 	d["max"] = int64(math.MaxInt64)
+	d["nan"] = math.NaN()
+	d["inf"] = math.Inf(1)
+	d["ninf"] = math.Inf(-1)
+	d["go"] = true
 	if id != "good" {
 		d["bad"] = badValues()[id]
 	}
@@ -50,7 +54,7 @@ func c09Check(cs c09Case) (ok bool, sig, expected, observed string) {
 var c09Atoms = []string{
 	"0", "1", "(-1)", "0.5", `""`, `"a"`, "true", "nil", "[]", "[1]", "{}", "{a: 1}", // reduced set: first 12
 	"9223372036854775807", "0.0", `"é"`, "false", "[[1]]", `{a: {b: 1}}`,
-	"{a: {x: 1, y: 2}, b: 3}", "[{a: {x: 1}, b: [2]}, {c: {}}]", "i", "f", "s", "e", "b", "n", "is", "as", "m", "st", "ps", "pi", "npi", "nps", "nsl", "nm", "sp", "zz", "st.Inner", "sn.Inner", "min", "i8", "u64", "f32", "rows", "rows[1]", "rows[2].A",
+	"{a: {x: 1, y: 2}, b: 3}", "[{a: {x: 1}, b: [2]}, {c: {}}]", "i", "f", "s", "e", "b", "n", "is", "as", "m", "st", "ps", "pi", "npi", "nps", "nsl", "nm", "sp", "zz", "st.Inner", "sn.Inner", "min", "i8", "u64", "f32", "rows", "rows[1]", "rows[2].A", "nan", "inf", "ninf",
 }
 
 const c09Reduced = 12
@@ -169,6 +173,16 @@ func c09Run(c *Ctx) {
 						return
 					}
 					if !do(src+"@for(i;i;i)x@break@end", "good", "for-expression-init", 0, 0) {
+						return
+					}
+				}
+			}
+		}
+		// loops without init or with an expression as init, ended by their own body after one full pass (no @break)
+		for _, init := range []string{"", "go", "1"} {
+			for _, post := range []string{"", "1", "go", "zz", "q++", "go = false"} {
+				for _, body := range []string{"{{ go = false }}x", "x{{ go = false }}@continue"} {
+					if !do("\n@for("+init+"; go; "+post+")"+body+"@end", "good", "for-ended-by-its-body", 0, 0) {
 						return
 					}
 				}
